@@ -24,7 +24,7 @@ PROPS = {
         'explanation': 'wire format contracts',
     },
     'C02': {
-        'modules': ['contracts.c02'],
+        'modules': ['contracts.c02', 'contracts.c09'],
         'level': 'proof',
         'trusted_base': COMMON_TB,
         'assumptions': [
@@ -33,6 +33,8 @@ PROPS = {
             'elements of symbolic vin/vout sequences are modelled as instances of the immutable element class (from_txin/from_txout of such elements is the identity); copies made for mutable elements have equal field values',
             'the cache slots of symbolic immutable objects are unset on entry (the cached path is covered by the C09 cache-validity invariant)',
             'C01 serialiser contracts (proved there) are used at call sites',
+            'BOUNDED (added after seeding round 3): identifiers of DESERIALISED transactions, outputs and blocks equal those of their own re-serialisation and of an equal object built by the constructor, on 500/300/200 generated accepted encodings per run, among them non-minimal CompactSize counts and lengths and the extended format with only empty witness stacks',
+            'the copy constructors from_outpoint/from_txin/from_txout/from_tx (proved under C09: new objects, immutable parts, equal field values) are re-verified in this check, since identifiers of an immutable copy stay valid only if the copy shares no mutable part with its source',
         ],
         'level_text': 'GetTxid = H2(stripped encoding) on both branches of its witness test; GetHash = H2(full encoding) '
                       'for the mutable and the immutable class; CBlock.GetHash = H2(80-byte header) independent of vtx; '
@@ -174,7 +176,8 @@ PROPS = {
         'assumptions': [
             'heap model: objects passed with heap=True are separate heap cells; lists of heap objects only with a concrete '
             'length (copy-constructor and signature-hash frame contracts are for 2 inputs and 1 output)',
-            'object.__setattr__ / list / tuple built-ins modelled by pyvc',
+            'object.__setattr__ / __delattr__ / list / tuple built-ins modelled by pyvc (a symbolic attribute name is compared with every slot of the MRO, one branch per slot; corrected after seeding round 3: it used to be treated as matching no slot, which made a slot-dependent guard look total)',
+            'BOUNDED: identifiers of deserialised transactions / outputs / blocks against their own re-serialisation on generated accepted encodings (non-minimal CompactSize, extended format with empty stacks)',
             'the whole-history statement (all interleavings) is NOT a per-call contract: it is sampled by the bounded unit',
         ],
         'level_text': 'PROVED per call, for all field values: __setattr__ and __delattr__ as resolved through each of the 9 '
@@ -215,6 +218,7 @@ PROPS = {
         'level': 'proof',
         'trusted_base': COMMON_TB,
         'assumptions': [
+            'added after seeding round 3: the bounded decode unit also draws (a) strings with one character outside the alphabet whose last six characters are solved so that the reference recurrence fed with the failed lookup (-1) still yields 1, (b) prefixes of up to 83 characters, so that valid checksums on strings longer than 90 characters occur (decode must refuse, encode must return None)',
             'bitwise xor on integers with overlapping bits is the uninterpreted function bxor - the same symbol in the '
             'code and in specs/bech32.py (exact when the operands provably occupy disjoint bits, evaluated when concrete); '
             'the algebraic (BCH) properties of the checksum are therefore NOT derived, only that the code computes the '
@@ -290,6 +294,7 @@ PROPS = {
         'level': 'proof',
         'trusted_base': COMMON_TB,
         'assumptions': [
+            'added after seeding round 3: the ASSUMED reply contract used for the id proof may also raise (JSONRPCError for a missing or non-JSON response, OSError for the transport), and the id postcondition is proved on those exits too; BOUNDED units hash_parameters_core_style (every hash argument of getrawtransaction incl. block_hash, gettxout, lockunspent; hashes in replies) and ids_increase_over_failures (call sequences with error / missing / non-JSON / absent replies)',
             'the injected HTTP connection does not touch the proxy object (stub class Conn in contracts/c19.py); '
             'json.dumps / json.loads are opaque; the reply of _get_response is one of the enumerated JSON object shapes '
             '(ASSUMED contracts reply_error_dict, reply_malformed, reply_result); a JSON reply that is not an object is '
@@ -338,6 +343,7 @@ PROPS = {
         'level': 'other',
         'trusted_base': COMMON_TB,
         'assumptions': [
+            'added after seeding round 3: verification under a well-sized public key that is NO curve point must be false for every digest and signature (the reference returns false; OpenSSL signals an error there, which must not be read as success) - part of verify_matches_reference; signatures_low_s_strict_der_many checks strict DER and low S on 12000 signatures per run (a defect confined to short-r signatures shows in about one of several hundred)',
             'OpenSSL (libssl via ctypes) performs every curve operation: no contract on Python source reaches it; CKey.__init__ '
             'is an ASSUMED contract at call sites',
             'Base58Check text <-> (version, payload) is the C10 layer (proved there)',
@@ -361,6 +367,7 @@ PROPS = {
         'level': 'other',
         'trusted_base': COMMON_TB,
         'assumptions': [
+            'added after seeding round 3: VerifyMessage has no memory - each generated verdict is also requested directly after the same signature was verified with the genuine message, an altered message or for another address',
             'OpenSSL performs signing, recovery-id search and public-key recovery: outside any contract on Python source',
             'str.encode("utf-8") is an uninterpreted strict codec in the proof of BitcoinMessage.__init__',
             'BytesSerializer contract from C01 (re-verified in this check); SHA-256 uninterpreted',
